@@ -1212,6 +1212,8 @@ def run_impl(case):
                     res = "skip"
                 elif target is not None and inst.get(tag_of.get(id(target), "?"), {}).get("kind") != op[2]:
                     res = "skip"  # a replacement with other channel labels: C14's subject
+                    create(op[2], f"r_{op[3]}", op[3])  # the node exists all the same (ids stay dense)
+                    info["created"] = True
                 else:
                     new = create(op[2], f"r_{op[3]}", op[3])
                     try:
@@ -1318,6 +1320,10 @@ def model_input(case, impl=None):
     for op, st in zip(case["ops"], impl["states"]):
         what, res = op[0], st["res"]
         if res == "skip":
+            if what == "replace" and st["info"].get("created"):
+                created.add(op[3])
+                lines += _init_lines(inst, op[3])
+                lines.append("q " + _decl(inst, op[3], f"r_{op[3]}", "ext"))
             prev_vals = st["vals"]
             continue
         if what in ("add", "ext"):
